@@ -11,7 +11,7 @@ ASSUMPTIONS = [
     'parameter catalogue: DOUBLE linear/log/reverse-log incl. singleton, huge and tiny ranges; INTEGER small / >10 values / log; DISCRETE 1, 2, 12 values, negative, log; CATEGORICAL 1, 2, 5 values; bool',
     'decode-into-space is demanded with should_clip=True (clipping off leaves out-of-range values in place by design); integer index features equal to the documented out-of-vocabulary code decode to "parameter absent" and are excluded',
     'continuous round trip tolerance: 4 ulp of the converter dtype relative to the parameter range (absolute in scaled space for log scales)',
-    'a range that the chosen dtype cannot represent (1e-300 in float32) is not generated',
+    'a range that the chosen dtype cannot represent (1e-300 in float32) is not generated; an integer beyond 2**24 through a float32 converter must come back within 4 ulp (it is not a float32 number) and inside the bounds, exactly through float64',
     'safety metrics are excluded from the label round trip, as the property says',
 ]
 
@@ -26,6 +26,7 @@ def catalogue():
       'd01': F('p', bounds=(0.0, 1.0)), 'd-55': F('p', bounds=(-5.0, 5.0), scale_type=S.LINEAR), 'dlog': F('p', bounds=(1e-3, 1e3), scale_type=S.LOG),
       'drlog': F('p', bounds=(1e-3, 1e3), scale_type=S.REVERSE_LOG), 'dsingle': F('p', bounds=(2.0, 2.0)), 'dhuge': F('p', bounds=(-1e9, 1e9)),
       'dtiny': F('p', bounds=(1e-300, 1e-299)), 'dlog-narrow': F('p', bounds=(1.0, 1.0001), scale_type=S.LOG),
+      'ibig': F('p', bounds=(16777210, 16777219)), 'inegbig': F('p', bounds=(-1000000090, -1000000001)),   # bounds float32 cannot represent
       'i00': F('p', bounds=(0, 0)), 'i-22': F('p', bounds=(-2, 2)), 'i015': F('p', bounds=(0, 15)), 'ilog': F('p', bounds=(1, 1000), scale_type=S.LOG),
       'x7': F('p', feasible_values=[7.0]), 'x2': F('p', feasible_values=[0.3, 7.2]), 'x12': F('p', feasible_values=[float(i) * 1.5 for i in range(12)]),
       'xneg': F('p', feasible_values=[-3.0, -1.0, 0.0, 2.5]), 'xlog': F('p', feasible_values=[0.01, 1.0, 100.0], scale_type=S.LOG),
@@ -73,6 +74,9 @@ def same_value(pc, v, w, dtype):
       return abs(math.log(max(w, 1e-320)) - math.log(v)) <= 8 * eps * max(1.0, abs(math.log(hi) - math.log(lo)), abs(math.log(lo)), abs(math.log(hi))) or abs(w - v) <= 8 * eps * (hi - lo)
     return abs(w - v) <= 4 * eps * max(hi - lo, abs(lo), abs(hi), 1e-300)
   if pc.type in (vz.ParameterType.INTEGER, vz.ParameterType.DISCRETE):
+    if float(w) != float(v) and dtype == np.float32 and abs(float(v)) > 2 ** 24:
+      # the value itself is not a float32 number: the nearest representable neighbours are all that can be asked for
+      return abs(float(w) - float(v)) <= 4 * np.finfo(np.float32).eps * abs(float(v))
     return float(w) == float(v)
   return w == v
 
